@@ -3124,6 +3124,14 @@ class Fn:
                     obj = getattr(obj, part, None)
                 if inspect.isclass(obj):
                     return obj.__name__
+        # x4: a local bound exactly once, by such a constructor call (`p = pathlib.PurePosixPath(x)` … `p.is_absolute()`)
+        if isinstance(e, ast.Name) and e.id in self.locals and e.id not in self.params() and e.id not in self.bound_stack():
+            binds = [n for n in _walk_scope(self.node.body) if e.id in _targets_of(n)]
+            if len(binds) == 1 and isinstance(binds[0], (ast.Assign, ast.AnnAssign)) and binds[0].value is not None:
+                tgt = binds[0].targets[0] if isinstance(binds[0], ast.Assign) else binds[0].target
+                if isinstance(tgt, ast.Name) and (not isinstance(binds[0], ast.Assign) or len(binds[0].targets) == 1) \
+                        and isinstance(binds[0].value, ast.Call):
+                    return self.x3_ext_class(binds[0].value)
         return None
 
     def x3_table(self, e):
